@@ -273,12 +273,32 @@ func (this *DatasetManager) processSnapshot(data []byte) error {
 		return err
 	}
 
+	// The snapshot is the whole catalogue. A member that receives it while it lags behind
+	// may still hold datasets that were deleted meanwhile and replica lists that changed.
+	listed := make(map[uuid.UUID]struct{}, len(dmSnapshot.Datasets))
 	for _, dataset := range dmSnapshot.Datasets {
 		id, err := uuid.FromBytes(dataset.GetId())
 		if err != nil {
 			return err
 		}
-		if _, exists := this.datasets[id]; !exists {
+		listed[id] = struct{}{}
+	}
+	for id, dataset := range this.datasets {
+		if _, exists := listed[id]; !exists {
+			for _, partition := range dataset.partitions {
+				this.allocator.unwatch(partition.id)
+			}
+			delete(this.datasets, id)
+		}
+	}
+
+	for _, dataset := range dmSnapshot.Datasets {
+		id, err := uuid.FromBytes(dataset.GetId())
+		if err != nil {
+			return err
+		}
+		existing, exists := this.datasets[id]
+		if !exists {
 			this.datasets[id], err = newDataset(id, *dataset, this.raftWalDB, this.raftTransport, this.clusterConn, this)
 			if err != nil {
 				return err
@@ -286,6 +306,18 @@ func (this *DatasetManager) processSnapshot(data []byte) error {
 			for _, partition := range this.datasets[id].partitions {
 				this.allocator.watch(partition)
 			}
+			continue
+		}
+		for _, partitionMeta := range dataset.GetPartitions() {
+			partitionId, err := uuid.FromBytes(partitionMeta.GetId())
+			if err != nil {
+				return err
+			}
+			partition, err := existing.getPartition(partitionId)
+			if err != nil {
+				return err
+			}
+			partition.setNodes(partitionMeta.GetNodeIds())
 		}
 	}
 	return nil
